@@ -35,6 +35,11 @@ def solveQueens (n : Nat) : List (List Nat) :=
           if p.zipIdx.all (fun (c', r') => c' != c && r + c' != r' + c && r + c != r' + c') then some (p ++ [c]) else none)))
   go n [[]]
 
+/-- adjacency as the property reads an edge list: with `-u` either direction connects, without
+it both directions must be present -/
+def adjOf (edges : List (Nat × Nat)) (u : Bool) (a b : Nat) : Bool :=
+  if u then edges.contains (a, b) || edges.contains (b, a) else edges.contains (a, b) && edges.contains (b, a)
+
 /-- a graph on vertices `0 … k-1` given by an adjacency test -/
 def isClique (adj : Nat → Nat → Bool) (s : List Nat) : Bool :=
   s.all (fun u => s.all (fun v => u == v || adj u v))
